@@ -1,4 +1,89 @@
-/-! oracle driver for the find engine (to be written) -/
+import Spok.Judge.Find
+/-! oracle driver for the find engine (C17)
+
+case:  `L <k₀k₁…kₙ> S <i> T <stop>`
+  * `kⱼ` (one hex digit) describes level j of a directory chain `B/c`, `B/c/d`, `B/c/d/d`, …
+    (`B` stands for the temp directory the harness builds the chain in, taken as one component below `/`):
+    `kⱼ = 4·s + o`, `s` = 0 no spokfile | 1 regular file `spokfile` | 2 directory `spokfile`,
+    `o` bit 0 = a file `aaa` (sorts before), bit 1 = a file `zzz` (sorts after);
+    every level but the last also lists its child `d`;
+  * start = level `i`;
+  * stop = `Lj` level j | `Uj` an unrelated directory `u` next to level j | `ROOT` the file-system root.
+impl observation:  `RES FOUND <level> | NOTFOUND | ERR | HANG` (or the supervisor's bare `HANG` / `CRASH`)
+answer:            `RES …` of the model `||` `C17=ok|FAIL` (the judge on the implementation's observation) -/
 namespace Spok.Oracle.Find
-def handle (line : String) : String := "TODO " ++ line
+open Spok.Find Spok.Judge
+
+def hexVal (c : Char) : Option Nat :=
+  if '0' ≤ c ∧ c ≤ '9' then some (c.toNat - 48)
+  else if 'a' ≤ c ∧ c ≤ 'f' then some (c.toNat - 87)
+  else none
+
+def levelDir (j : Nat) : Dir := ["B", "c"] ++ List.replicate j "d"
+
+/-- listing of level j (sorted by name: aaa < d < spokfile < u < zzz) -/
+def levelEntries (k : Nat) (hasChild hasU : Bool) : List Entry :=
+  (if k % 2 == 1 then [⟨"aaa", false⟩] else []) ++
+  (if hasChild then [⟨"d", true⟩] else []) ++
+  (match k / 4 with | 1 => [⟨NAME, false⟩] | 2 => [⟨NAME, true⟩] | _ => []) ++
+  (if hasU then [⟨"u", true⟩] else []) ++
+  (if (k / 2) % 2 == 1 then [⟨"zzz", false⟩] else [])
+
+inductive Stop where
+  | level (j : Nat) | unrel (j : Nat) | root
+
+def stopDir : Stop → Dir
+  | .level j => levelDir j
+  | .unrel j => (levelDir j).dropLast ++ ["u"]
+  | .root => []
+
+def mkFS (ks : List Nat) (stop : Stop) : FS := fun d =>
+  let n := ks.length
+  let uAt : Option Nat := match stop with | .unrel j => some j | _ => none   -- `u` is listed in the parent of level j
+  if d == [] then [⟨"B", true⟩]
+  else if d == ["B"] then [⟨"c", true⟩] ++ (if uAt == some 0 then [⟨"u", true⟩] else [])
+  else if d.length ≥ 2 ∧ d == levelDir (d.length - 2) ∧ d.length - 2 < n then
+    let j := d.length - 2
+    levelEntries (ks.getD j 0) (j + 1 < n) (uAt == some (j + 1))
+  else []
+
+def parseStop (s : String) : Option Stop :=
+  if s == "ROOT" then some .root
+  else match s.toList with
+    | 'L' :: r => (String.ofList r).toNat?.map .level
+    | 'U' :: r => (String.ofList r).toNat?.map .unrel
+    | _ => none
+
+def resStr (r : FindObs) : String :=
+  match r with
+  | .found d => if d.length ≥ 2 ∧ d == levelDir (d.length - 2) then s!"FOUND {d.length - 2}" else "FOUND outside"
+  | .notFound => "NOTFOUND"
+  | .err => "ERR"
+  | .hang => "HANG"
+
+def parseObs (s : String) : FindObs :=
+  match (s.splitOn " ").filter (· ≠ "") with
+  | ["RES", "FOUND", j] => match j.toNat? with | some j => .found (levelDir j) | none => .err
+  | ["RES", "NOTFOUND"] => .notFound
+  | ["RES", "HANG"] => .hang
+  | ["HANG"] => .hang
+  | _ => .err
+
+def handle (line : String) : String :=
+  match line.splitOn " | " with
+  | [inp, impl] =>
+    match (inp.splitOn " ").filter (· ≠ "") with
+    | ["L", ks, "S", i, "T", st] =>
+      match ks.toList.mapM hexVal, i.toNat?, parseStop st with
+      | some ks, some i, some stop =>
+        let fs := mkFS ks stop
+        let start := levelDir i
+        let sd := stopDir stop
+        let m := FindObs.ofResult (find fs start sd)
+        let v := if c17 fs start sd (parseObs impl.trimAscii.toString) then "ok" else "FAIL"
+        s!"RES {resStr m} || C17={v}"
+      | _, _, _ => "BAD-CASE || C17=FAIL"
+    | _ => "BAD-CASE || C17=FAIL"
+  | _ => "BAD-LINE || C17=FAIL"
+
 end Spok.Oracle.Find
